@@ -90,7 +90,10 @@ def llm_fn_for(path, version):
 RAILS = {"single": (("in1",), ("out1",)), "double": (("in1", "in2"), ("out1", "out2")), "param": (("in1", "in2"), ("out1", "out2")),
          "libjb": (("in1",), ("out1",)),
          # "libself": Colang 2.x, the shipped `self check input` / `self check output` rails (their actions replaced by stubs)
-         "libself": (("in1",), ("out1",))}
+         "libself": (("in1",), ("out1",)),
+         # "threshold": Colang 2.x stub rails that compare their action's result with a threshold (`if $ok < 0.5`, the shape of the
+         # shipped `self check facts`): a failed action leaves None there
+         "threshold": (("in1",), ("out1",))}
 # "remote": the actions run on an actions server (`actions_server_url`), see c03_remote
 # "ship:<in>|<out>": Colang 2.x, input / output rail = shipped library flows (or the stub rail "-"), see c03_shipped
 _RAILSET = ["single"]
@@ -120,7 +123,7 @@ def build(version, dialog, exceptions):
             return remote.serve(factory)
         return remote.serve(lambda extra_yaml: rw.v1_world(in_order=ins, out_order=outs, dialog=dialog, exceptions=exceptions, extra_yaml=extra_yaml))
     if version == "2.x":
-        return rw.v2_world(in_order=ins, out_order=outs, dialog=False, exceptions=exceptions, library=("jailbreak" if _RAILSET[0] == "libjb" else (True if _RAILSET[0] == "libself" else False)), main={"retry": V2_MAIN_RETRY, "say-result": V2_MAIN_SAY_RESULT}.get(_PATH[0], V2_MAIN_LOOKUP))
+        return rw.v2_world(in_order=ins, out_order=outs, dialog=False, exceptions=exceptions, library=("jailbreak" if _RAILSET[0] == "libjb" else (True if _RAILSET[0] == "libself" else False)), shape=("threshold" if _RAILSET[0] == "threshold" else "flag"), main={"retry": V2_MAIN_RETRY, "say-result": V2_MAIN_SAY_RESULT}.get(_PATH[0], V2_MAIN_LOOKUP))
     return rw.v1_world(in_order=ins, out_order=outs, dialog=dialog, exceptions=exceptions, param_rails=("both" if _RAILSET[0] == "param" else False))
 
 
@@ -255,6 +258,11 @@ def explore(task):
                         flows = [shipped.SHIPPED[k][1] + " (" + shipped.SHIPPED[k][3] + ")" for k in name.split("+") if k in shipped.SHIPPED]
                         res["viol"].append((f"{sig}:v2:shipped-{name}-rail:{'+'.join(failed_sites) or 'none'}:{variant}",
                                             (f"shipped Colang 2.x rail `{'`, `'.join(flows)}`, action replaced by a stub, fault kind {kind}: " if flows else "") + what, info))
+                    elif _RAILSET[0] == "threshold":
+                        variant = "fresh-instance" if fresh else ("second-fault-after-a-hidden-turn" if second is not None else kind)
+                        if sig == "reply-not-refusal-or-internal-error" and not (ft.text or ""):
+                            sig = "reply-empty-instead-of-refusal"     # same class as for the shipped rails that index / compare a missing result
+                        res["viol"].append((f"{sig}:v2:threshold-shaped-rail:{'+'.join(failed_sites) or 'none'}:{variant}", what, info))
                     elif _RAILSET[0] == "libjb":
                         variant = "fresh-instance" if fresh else ("second-fault-after-a-hidden-turn" if second is not None else kind)
                         res["viol"].append((f"{sig}:v2:shipped-jailbreak-heuristics-rail:{'+'.join(failed_sites) or 'none'}:{variant}", what, info))
@@ -568,6 +576,7 @@ def tasks(tier):
         out.append(("2.x", False, exc, "say-result", turns, False, ("raise", "none")))
         out.append(("2.x", False, exc, "free", turns, False, ("raise", "none"), "libjb"))
         out.append(("2.x", False, exc, "free", turns, False, ("raise", "none"), "libself"))
+        out.append(("2.x", False, exc, "free", turns, False, ("raise", "none"), "threshold"))
         # one shipped rail flow configured twice with different parameters (Colang 1.0)
         out.append(("1.0", False, exc, "general", turns, tier == "thorough", ("raise",), "param"))
         if tier == "thorough":
